@@ -189,3 +189,77 @@ def scan_offset_local(body):
         if len(defs.get(l, [])) >= 2:
             out.add(l)
     return sorted(out)[0] if len(out) == 1 else None
+
+
+_FLIP = {"Ge": "Lt", "Gt": "Le", "Ne": "Eq"}
+
+
+def normalized(g):
+    """(cond, value) of a guard with negations pushed into the value: `a >= b` = false is `a < b` = true,
+    `!x` = true is `x` = false, `a != b` = false is `a == b` = true (so that a rule written for `while a < b`
+    also recognises `loop { if a >= b { break } … }`)"""
+    cond, value = g.cond, g.value
+    changed = True
+    while changed and isinstance(value, bool):
+        changed = False
+        c = strip(cond)
+        if c[0] == "unop" and c[1] == "Not":
+            cond, value, changed = c[2], (not value), True
+        elif c[0] == "binop" and c[1] in _FLIP:
+            cond, value, changed = ("binop", _FLIP[c[1]], c[2], c[3]), (not value), True
+    return cond, value
+
+
+def reach_const_aware(body, start, limit=4000):
+    """blocks reachable from `start` when boolean locals that were assigned a constant on the way are respected at the
+    switches that test them (`let keep = match e { A => true, B => false }; if keep { … } else { … }` is followed arm by
+    arm, not as a cross product).  Path-sensitive over a small state: {local: bool}."""
+    seen = set()
+    out = set()
+    work = [(start, ())]
+    steps = 0
+    while work and steps < limit:
+        steps += 1
+        b, st = work.pop()
+        if (b, st) in seen:
+            continue
+        seen.add((b, st))
+        out.add(b)
+        env = dict(st)
+        for s in body.blocks[b]["stmts"]:
+            if s.get("k") == "assign" and "p" not in s["p"]:
+                l = s["p"]["l"]
+                rv = s["rv"]
+                if rv["k"] == "use" and rv["op"].get("k") == "const" and rv["op"].get("v") in ("true", "false"):
+                    env[l] = rv["op"]["v"] == "true"
+                elif rv["k"] == "use" and rv["op"].get("k") in ("copy", "move") and "p" not in rv["op"]["p"] and rv["op"]["p"]["l"] in env:
+                    env[l] = env[rv["op"]["p"]["l"]]
+                else:
+                    env.pop(l, None)
+        t = body.term(b)
+        if t["k"] == "call" and "p" not in t["dest"]:
+            env.pop(t["dest"]["l"], None)
+        nxt = body.succ(b)
+        if t["k"] == "switch" and t["discr"].get("k") in ("copy", "move") and "p" not in t["discr"]["p"] and t["discr"]["p"]["l"] in env:
+            v = env[t["discr"]["p"]["l"]]
+            targets = {int(x): tb for x, tb in t["targets"]}
+            nxt = [targets[int(v)]] if int(v) in targets else [t["otherwise"]]
+        key = tuple(sorted(env.items()))
+        for s in nxt:
+            work.append((s, key))
+    return out
+
+
+def absence_guard(g, get_pattern):
+    """does guard g say "the lookup matched by get_pattern (a regex over canon) found nothing"?
+    Recognised spellings: `get(..).is_some()` = false, `get(..).is_none()` = true, `match get(..) { None => … }`,
+    `if let Some(_) = get(..)` on the other edge."""
+    import re
+    cond, value = normalized(g)
+    c = canon(cond)
+    m = re.match(r"^Option::(is_some|is_none)\(&(.*)\)$", c)
+    if m and re.match(get_pattern, m.group(2)):
+        return (value is False) if m.group(1) == "is_some" else (value is True)
+    if re.match(get_pattern, c) and g.variant == "None":
+        return True
+    return False
